@@ -37,6 +37,7 @@ theorem Step.errors_ext {s s' : St} (st : Step s s') : ∃ Δ, s'.errors = s.err
   | leave => exact ⟨[], by rw [leave_errors]; simp⟩
   | regLabel l _ => exact ⟨[], by simp [St.mapFrames]⟩
   | ctl i _ _ _ => exact ⟨[], by simp [St.push, St.mapFrames]⟩
+  | emitRet i _ _ _ _ _ => exact ⟨[], by simp [St.push, St.mapFrames]⟩
   | ctlVia k i _ _ _ => exact ⟨[], by rw [pushVia_errors]; simp⟩
   | setReturn => exact ⟨[], by simp [St.setReturn, St.mapFrames]⟩
   | setPanic site => exact ⟨[], by rw [setPanic_errors]; simp⟩
